@@ -13,6 +13,7 @@ fresh_array = Intrinsic("fresh_array")  # fresh_array('name', n, 'real')
 uf = Intrinsic("uf")                  # uf('name', arity) -> callable uninterpreted function
 expect_raises = Intrinsic("expect_raises")  # expect_raises(Exc, callable, *args) -> bool/raises obligation
 note = Intrinsic("note")
+reveal = Intrinsic("reveal")          # reveal(f, g, ...): assume the hidden (opaque) ensures of these contracts from here on
 use_lemma = Intrinsic("use_lemma")  # use_lemma("sum_const", array, c, n): instance of a lemma proved in this run
 cnt = Intrinsic("cnt")              # cnt(int_array, k, v) = #{j < k | a[j] == v}
 count_def = Intrinsic("count_def")  # definitional unfolding of cnt at position k (for loop `unfold` hints)
